@@ -458,6 +458,15 @@ class Sim(object):
         self.sleepers.append((self.k.now + int(round(duration * 1000)), self.seq, f))
         return f
 
+    def _call_later(self, delay, callback, *args, **kw):
+        """IOLoop.call_later of the daemon's loop: a timer owned by the harness scheduler"""
+        self.seq += 1
+        self.sleepers.append((self.k.now + int(round(delay * 1000)), self.seq, _Timer(callback, args, kw)))
+
+    def _loop_stop(self):
+        """IOLoop.stop: Arbiter.start() would return and close the sockets"""
+        self.stop_requested = True
+
     def setup(self):
         import circus.arbiter as A
         import circus.process as P
@@ -486,6 +495,10 @@ class Sim(object):
         a = self.sc.get("arb", {})
         self.arb = A.Arbiter(ws, "ipc:///dev/shm/verif-none-ctl", "ipc:///dev/shm/verif-none-pub",
                              check_delay=-1, loop=self.loop, warmup_delay=a.get("warmup_ms", 0) / 1000.0)
+        self.arb._provided_loop = False       # as in circusd: the arbiter owns the loop
+        self.stop_requested = False
+        self.loop.call_later = self._call_later
+        self.loop.stop = self._loop_stop
         self.pub = FakePub(self.k)
         self.arb.evpub_socket = self.pub
         # what Arbiter.initialize does, minus zmq
@@ -531,6 +544,11 @@ class Sim(object):
             pass
         for _, _, f in self.sleepers:
             f.cancel()
+        for name in ("call_later", "stop"):
+            try:
+                delattr(self.loop, name)
+            except AttributeError:
+                pass
         try:
             self.settle()
         except BaseException:
@@ -579,14 +597,11 @@ class Sim(object):
             elif kind == "raw":
                 self.arb.ctrl.handle_message([("c%d" % (op[2] if len(op) > 2 else 0)).encode(), bytes(op[1])])
             elif kind == "sig":
-                from circus.client import make_json
-                msg = make_json("quit") if op[1] == "quit" else make_json("reload", graceful=True)
-                try:
-                    self.arb.ctrl.dispatch((None, msg))
-                except BaseException as e:                   # noqa
-                    if isinstance(e, Blocked):
-                        raise
-                    k.out("o raised %s" % type(e).__name__)
+                # what the SysHandler does when the signal arrives
+                if op[1] == "quit":
+                    self.arb.ctrl.sys_hdl.quit()
+                else:
+                    self.arb.ctrl.sys_hdl.reload()
             elif kind == "check":
                 from circus.exc import ConflictError
                 try:
@@ -601,7 +616,9 @@ class Sim(object):
                     if d > k.now:
                         k.now = d
                     k.resolve()
-                    if not f.done():
+                    if isinstance(f, _Timer):
+                        self.aloop.call_soon(f.fire)
+                    elif not f.done():
                         f.set_result(None)
                 else:
                     k.out("o nosleeper")
@@ -618,6 +635,11 @@ class Sim(object):
             else:
                 raise ValueError("unknown op %r" % (op,))
             self.settle()
+            if self.stop_requested:
+                # the loop has been stopped: Arbiter.start() returns and its `finally` closes everything
+                self.stop_requested = False
+                self.arb.stop_controller_and_close_sockets()
+                self.settle()
         except Blocked:
             self.blocked = True
         if k.blocked:                 # a bare `except:` in the code under test may have swallowed it
@@ -664,6 +686,20 @@ class Sim(object):
         finally:
             self.teardown()
         return steps
+
+
+class _Timer(object):
+    def __init__(self, cb, args, kw):
+        self.cb, self.args, self.kw = cb, args, kw
+
+    def fire(self):
+        self.cb(*self.args, **self.kw)
+
+    def cancel(self):
+        pass
+
+    def done(self):
+        return False
 
 
 class _Closable(object):
